@@ -385,11 +385,10 @@ func fibHasHop(e *fibStrategyTreeEntry, nexthop uint64, cost uint64) bool {
 //@   ensures forallIn(0, len(result), func(i int) bool { return typeIs(result[i], "*fibStrategyTreeEntry") && result[i].(*fibStrategyTreeEntry).strategy != nil })
 
 // ---------------------------------------------------------------------------------------
-// hash-table FIB (fib-strategy-hashtable.go). View: realTable maps the hash of a registered prefix to its entry
-// (A-HASH: a name is identified by its hash). LIMIT: the trusted contract of Name.PrefixHash in std/encoding only says
-// that len(name)+1 values are returned; nothing links prefixHash[k] to the hash of name[:k] (nor to Name.Hash()), so
-// key-level clauses ("exactly the entry of name changes", longest-prefix order of the probes) cannot be discharged
-// here, and insertEntryEnc / pruneTables (which address the tables through prefixHash) are left without contract.
+// hash-table FIB (fib-strategy-hashtable.go). View (A-HASH: a name is identified by its hash): realTable maps the hash
+// of a registered prefix to its entry, virtTable maps the hash of an m-component prefix to its virtual node. All
+// clauses are stated over the hash keys; the key of the k-component prefix of a name is enc.SpecPrefixHash(name, k)
+// (trusted contract of Name.PrefixHash), enc.SpecHashLen / enc.SpecHashPrefix are the explicit A-HASH functions.
 // ---------------------------------------------------------------------------------------
 
 func (f *FibStrategyHashTable) hasReal(h uint64) bool {
@@ -397,65 +396,206 @@ func (f *FibStrategyHashTable) hasReal(h uint64) bool {
 	return ok
 }
 
-// fibHtWf: every real-table slot holds an entry, and next-hop lists hold no nil record.
+func (f *FibStrategyHashTable) hasVirt(h uint64) bool {
+	_, ok := f.virtTable[h]
+	return ok
+}
+
+func (f *FibStrategyHashTable) hasNames(h uint64) bool {
+	_, ok := f.virtTableNames[h]
+	return ok
+}
+
+// fibHtKey: the table key of the k-component prefix of n.
+func fibHtKey(n enc.Name, k int) uint64 { return enc.SpecPrefixHash(n, k) }
+
+// fibHtWf: every real-table / virtual-table slot holds an object.
 func fibHtWf(f *FibStrategyHashTable) bool {
 	return f.realTable != nil && f.virtTable != nil && f.virtTableNames != nil &&
 		forall(func(h uint64) bool { return implies(f.hasReal(h), f.realTable[h] != nil) }) &&
-		forall(func(h uint64) bool { return implies(f.hasVirt(h), f.virtTable[h] != nil) })
+		forall(func(h uint64) bool { return implies(f.hasVirt(h), f.virtTable[h] != nil) }) &&
+		forall(func(h uint64) bool { return implies(f.hasNames(h), f.virtTableNames[h] != nil) })
 }
 
+// fibHtKeyWf: an entry is stored under the hash of its own name.
+func fibHtKeyWf(f *FibStrategyHashTable) bool {
+	return forall(func(h uint64) bool { return implies(f.hasReal(h), enc.SpecNameHash(f.realTable[h].name) == h) })
+}
+
+// fibHtHopsWf: next-hop lists hold no nil record.
 func fibHtHopsWf() bool {
 	return forall(func(e *baseFibStrategyEntry, i int) bool {
 		return implies(0 <= i && i < len(e.nexthops), e.nexthops[i] != nil)
 	})
 }
 
-func (f *FibStrategyHashTable) hasVirt(h uint64) bool {
-	_, ok := f.virtTable[h]
-	return ok
+// fibHtLenWf: the entry stored under key h carries a name of the length of the name identified by h.
+func fibHtLenWf(f *FibStrategyHashTable) bool {
+	return forall(func(h uint64) bool { return implies(f.hasReal(h), len(f.realTable[h].name) == enc.SpecHashLen(h)) })
 }
 
-// findLongestPrefixMatchEnc: the result is a registered entry (or nil).
+// fibHtMdWf (the invariant the lookup relies on, read off the code): every registered name longer than m has its
+// virtual node (keyed by its m-component prefix), and the md of that node is an upper bound of the name's length.
+func fibHtMdWf(f *FibStrategyHashTable) bool {
+	return forall(func(h uint64) bool {
+		return implies(f.hasReal(h) && enc.SpecHashLen(h) > f.m,
+			f.hasVirt(enc.SpecHashPrefix(h, f.m)) && f.virtTable[enc.SpecHashPrefix(h, f.m)].md >= enc.SpecHashLen(h))
+	})
+}
+
+// fibHtHasHops / fibHtHasStrat: the key is registered and its entry holds next hops / a strategy.
+func fibHtHasHops(f *FibStrategyHashTable, h uint64) bool {
+	return f.hasReal(h) && len(f.realTable[h].nexthops) > 0
+}
+
+func fibHtHasStrat(f *FibStrategyHashTable, h uint64) bool {
+	return f.hasReal(h) && f.realTable[h].strategy != nil
+}
+
+// findLongestPrefixMatchEnc: the entry of the LONGEST registered prefix of name (k = 0 included), nil if none.
 //
 //@ func (*FibStrategyHashTable).findLongestPrefixMatchEnc
-//@   requires fibHtWf(f) && f.m >= 0
-//@   ensures result != nil ==> exists(func(h uint64) bool { return f.hasReal(h) && f.realTable[h] == result })
+//@   requires fibHtWf(f) && fibHtLenWf(f) && fibHtMdWf(f) && f.m >= 0
+//@   ensures [none] result == nil ==> forallIn(0, len(name)+1, func(k int) bool { return !f.hasReal(fibHtKey(name, k)) })
+//@   ensures [longest] result != nil ==> existsIn(0, len(name)+1, func(j int) bool { return f.hasReal(fibHtKey(name, j)) && f.realTable[fibHtKey(name, j)] == result && len(result.name) == j && forallIn(j+1, len(name)+1, func(k int) bool { return !f.hasReal(fibHtKey(name, k)) }) })
+//@   loop 1 invariant -1 <= pfx && pfx <= len(name) && forallIn(pfx+1, len(name)+1, func(k int) bool { return !f.hasReal(fibHtKey(name, k)) })
+//@   loop 2 invariant pfx <= len(name) && f.m < len(name) && forallIn(max(pfx, f.m)+1, len(name)+1, func(k int) bool { return !f.hasReal(fibHtKey(name, k)) })
+//@   loop 3 invariant -1 <= pfx && pfx <= f.m && f.m < len(name) && forallIn(pfx+1, len(name)+1, func(k int) bool { return !f.hasReal(fibHtKey(name, k)) })
 
-// FindNextHopsEnc: the result is the next-hop list of a registered entry that has next hops; never a nil record.
-// (C16: the LIVE list is returned, not a copy - unlike the name tree.)
+// FindNextHopsEnc [lpm]: the next hops of the largest k <= len(name) (k = 0, the default route, included) whose key
+// holds next hops; nothing if there is no such k. (C16: the LIVE list is returned, not a copy.)
 //
 //@ func (*FibStrategyHashTable).FindNextHopsEnc
-//@   requires fibHtWf(f) && fibHtHopsWf() && f.m >= 0
+//@   requires fibHtWf(f) && fibHtLenWf(f) && fibHtMdWf(f) && fibHtHopsWf() && f.m >= 0
 //@   ensures forallIn(0, len(result), func(i int) bool { return result[i] != nil })
-//@   ensures [registered] len(result) > 0 ==> exists(func(h uint64) bool { return f.hasReal(h) && sameSlice(f.realTable[h].nexthops, result) })
+//@   ensures [lpm-none] len(result) == 0 ==> forallIn(0, len(name)+1, func(k int) bool { return !fibHtHasHops(f, fibHtKey(name, k)) })
+//@   ensures [lpm] len(result) > 0 ==> existsIn(0, len(name)+1, func(j int) bool { return fibHtHasHops(f, fibHtKey(name, j)) && sameSlice(result, f.realTable[fibHtKey(name, j)].nexthops) && forallIn(j+1, len(name)+1, func(k int) bool { return !fibHtHasHops(f, fibHtKey(name, k)) }) })
+//@   loop 1 invariant -1 <= pfx && pfx <= len(name) && forallIn(pfx+1, len(name)+1, func(k int) bool { return !fibHtHasHops(f, fibHtKey(name, k)) })
 
+// FindStrategyEnc [lpm]: the strategy of the largest k <= len(name) whose key holds a strategy (k = 0 included).
+//
 //@ func (*FibStrategyHashTable).FindStrategyEnc
-//@   requires fibHtWf(f) && f.m >= 0
-//@   ensures [registered] result != nil ==> exists(func(h uint64) bool { return f.hasReal(h) && sameSlice(f.realTable[h].strategy, result) })
+//@   requires fibHtWf(f) && fibHtLenWf(f) && fibHtMdWf(f) && f.m >= 0
+//@   ensures [lpm-none] result == nil ==> forallIn(0, len(name)+1, func(k int) bool { return !fibHtHasStrat(f, fibHtKey(name, k)) })
+//@   ensures [lpm] result != nil ==> existsIn(0, len(name)+1, func(j int) bool { return fibHtHasStrat(f, fibHtKey(name, j)) && sameSlice(result, f.realTable[fibHtKey(name, j)].strategy) && forallIn(j+1, len(name)+1, func(k int) bool { return !fibHtHasStrat(f, fibHtKey(name, k)) }) })
+//@   ensures [root-strategy] fibHtHasStrat(f, fibHtKey(name, 0)) ==> result != nil
+//@   loop 1 invariant -1 <= pfx && pfx <= len(name) && forallIn(pfx+1, len(name)+1, func(k int) bool { return !fibHtHasStrat(f, fibHtKey(name, k)) })
 
-// UnSetStrategyEnc: the root strategy can be replaced but never unset; exactly one entry changes.
+// insertEntryEnc: find-or-create the real entry of name; no other key changes; the virtual node of a name longer than
+// (or as long as) m exists afterwards and its md only grows (fibHtMdWf is kept).
+//
+//@ func (*FibStrategyHashTable).insertEntryEnc
+//@   requires f.m >= 0
+//@   invariant fibHtWf(f)
+//@   invariant fibHtLenWf(f)
+//@   invariant fibHtKeyWf(f)
+//@   invariant fibHtMdWf(f)
+//@   invariant fibHtHopsWf()
+//@   modifies f.realTable[*], f.virtTable[*], f.virtTableNames[*], all(fibHtNameSetT), all(virtualDetails.md)
+//@   ensures [entry] result != nil && f.hasReal(enc.SpecNameHash(name)) && f.realTable[enc.SpecNameHash(name)] == result
+//@   ensures [others] forall(func(h uint64) bool { return h != enc.SpecNameHash(name) ==> f.hasReal(h) == old(f.hasReal(h)) && f.realTable[h] == old(f.realTable[h]) })
+//@   ensures [kept] old(f.hasReal(enc.SpecNameHash(name))) ==> result == old(f.realTable[enc.SpecNameHash(name)])
+//@   ensures [new] !old(f.hasReal(enc.SpecNameHash(name))) ==> fresh(result) && len(result.nexthops) == 0 && result.strategy == nil && sameSlice(result.name, name)
+//@   ensures [md-grows] forall(func(v uint64) bool { return old(f.hasVirt(v)) ==> f.hasVirt(v) && f.virtTable[v].md >= old(f.virtTable[v].md) })
+
+// pruneTables: an entry that still holds next hops or a strategy is left alone; otherwise exactly its key is dropped
+// from the real table. The md bound is kept (md never shrinks; a virtual node is dropped only with its last real name).
+//
+//@ func (*FibStrategyHashTable).pruneTables
+//@   requires f.m >= 0 && entry != nil
+//@   invariant fibHtWf(f)
+//@   invariant fibHtLenWf(f)
+//@   invariant fibHtKeyWf(f)
+//@   invariant fibHtHopsWf()
+//@   modifies f.realTable[*], f.virtTable[*], f.virtTableNames[*], all(fibHtNameSetT), all(virtualDetails.md)
+//@   ensures [kept-if-full] len(entry.nexthops) > 0 || entry.strategy != nil ==> forall(func(h uint64) bool { return f.hasReal(h) == old(f.hasReal(h)) && f.realTable[h] == old(f.realTable[h]) })
+//@   ensures [only-that-key] forall(func(h uint64) bool { return h != enc.SpecNameHash(entry.name) ==> f.hasReal(h) == old(f.hasReal(h)) && f.realTable[h] == old(f.realTable[h]) })
+//@   ensures [dropped] len(entry.nexthops) == 0 && entry.strategy == nil ==> !f.hasReal(enc.SpecNameHash(entry.name))
+//@   ensures [md-bound] old(fibHtMdWf(f)) ==> fibHtMdWf(f)
+//@   loop 1 invariant forall(func(h uint64) bool { return h != enc.SpecNameHash(entry.name) ==> f.hasReal(h) == old(f.hasReal(h)) && f.realTable[h] == old(f.realTable[h]) })
+//@   loop 1 invariant !f.hasReal(enc.SpecNameHash(entry.name))
+
+// fibHtHasHop: the entry e lists face `nexthop` with cost `cost`.
+func fibHtHasHop(e *baseFibStrategyEntry, nexthop uint64, cost uint64) bool {
+	return (len(e.nexthops) > 0 && e.nexthops[len(e.nexthops)-1].Nexthop == nexthop && e.nexthops[len(e.nexthops)-1].Cost == cost) ||
+		existsIn(0, len(e.nexthops), func(i int) bool { return e.nexthops[i].Nexthop == nexthop && e.nexthops[i].Cost == cost })
+}
+
+// InsertNextHopEnc: the entry of name lists (nexthop, cost) afterwards; no other key and no other entry's list changes.
+//
+//@ func (*FibStrategyHashTable).InsertNextHopEnc
+//@   option heap-closedness
+//@   requires f.m >= 0
+//@   invariant fibHtWf(f)
+//@   invariant fibHtLenWf(f)
+//@   invariant fibHtKeyWf(f)
+//@   invariant fibHtMdWf(f)
+//@   invariant fibHtHopsWf()
+//@   modifies f.realTable[*], f.virtTable[*], f.virtTableNames[*], all(fibHtNameSetT), all(virtualDetails.md), all(baseFibStrategyEntry.nexthops), all(fibHopsSliceT), all(FibNextHopEntry.Cost)
+//@   ensures [present] f.hasReal(enc.SpecNameHash(name)) && fibHtHasHop(f.realTable[enc.SpecNameHash(name)], nexthop, cost)
+//@   ensures [others] forall(func(h uint64) bool { return h != enc.SpecNameHash(name) ==> f.hasReal(h) == old(f.hasReal(h)) && f.realTable[h] == old(f.realTable[h]) })
+//@   ensures [lists-kept] forall(func(e *baseFibStrategyEntry) bool { return !fresh(e) && e != f.realTable[enc.SpecNameHash(name)] ==> sameSlice(e.nexthops, old(e.nexthops)) })
+//@   ensures [cost-only-that-face] forall(func(x *FibNextHopEntry) bool { return !fresh(x) && x.Cost != old(x.Cost) ==> x.Nexthop == nexthop && x.Cost == cost })
+//@   loop 1 invariant forallIn(0, rangeindex+1, func(i int) bool { return realEntry.nexthops[i].Nexthop != nexthop })
+
+// SetStrategyEnc: the entry of name holds the strategy afterwards; no other key changes, no other entry's strategy changes.
+//
+//@ func (*FibStrategyHashTable).SetStrategyEnc
+//@   requires f.m >= 0
+//@   invariant fibHtWf(f)
+//@   invariant fibHtLenWf(f)
+//@   invariant fibHtKeyWf(f)
+//@   invariant fibHtMdWf(f)
+//@   invariant fibHtHopsWf()
+//@   modifies f.realTable[*], f.virtTable[*], f.virtTableNames[*], all(fibHtNameSetT), all(virtualDetails.md), all(baseFibStrategyEntry.strategy)
+//@   ensures [set] f.hasReal(enc.SpecNameHash(name)) && sameSlice(f.realTable[enc.SpecNameHash(name)].strategy, strategy)
+//@   ensures [others] forall(func(h uint64) bool { return h != enc.SpecNameHash(name) ==> f.hasReal(h) == old(f.hasReal(h)) && f.realTable[h] == old(f.realTable[h]) })
+//@   ensures [strategies-kept] forall(func(e *baseFibStrategyEntry) bool { return !fresh(e) && e != f.realTable[enc.SpecNameHash(name)] ==> sameSlice(e.strategy, old(e.strategy)) })
+
+// UnSetStrategyEnc: the root strategy can be replaced but never unset; exactly the key of name may change.
 //
 //@ func (*FibStrategyHashTable).UnSetStrategyEnc
-//@   requires fibHtWf(f) && f.m >= 0
+//@   requires f.m >= 0
+//@   invariant fibHtWf(f)
+//@   invariant fibHtLenWf(f)
+//@   invariant fibHtKeyWf(f)
+//@   invariant fibHtHopsWf()
 //@   modifies f.realTable[*], f.virtTable[*], f.virtTableNames[*], all(fibHtNameSetT), all(virtualDetails.md), all(baseFibStrategyEntry.strategy)
 //@   ensures [root-strategy] len(name) == 0 && old(f.hasReal(enc.SpecNameHash(name)) && f.realTable[enc.SpecNameHash(name)].strategy != nil) ==> f.hasReal(enc.SpecNameHash(name)) && f.realTable[enc.SpecNameHash(name)].strategy != nil
 //@   ensures [one-entry] forall(func(h uint64) bool { return h != enc.SpecNameHash(name) ==> f.hasReal(h) == old(f.hasReal(h)) && f.realTable[h] == old(f.realTable[h]) })
 //@   ensures [others-kept] forall(func(e *baseFibStrategyEntry) bool { return e != old(f.realTable[enc.SpecNameHash(name)]) ==> sameSlice(e.strategy, old(e.strategy)) })
-
-// SetStrategyEnc: the entry of name holds the strategy afterwards; no other entry changes its strategy.
-//
-//@ func (*FibStrategyHashTable).SetStrategyEnc
-//@   requires fibHtWf(f) && f.m >= 0
-//@   modifies f.realTable[*], f.virtTable[*], f.virtTableNames[*], all(fibHtNameSetT), all(virtualDetails.md), all(baseFibStrategyEntry.strategy)
-//@   ensures [set] strategy != nil ==> exists(func(h uint64) bool { return f.hasReal(h) && sameSlice(f.realTable[h].strategy, strategy) })
+//@   ensures [md-bound] old(fibHtMdWf(f)) ==> fibHtMdWf(f)
 
 // ClearNextHopsEnc: exactly the entry of name changes: it loses its next hops (and is dropped if nothing is left).
 //
 //@ func (*FibStrategyHashTable).ClearNextHopsEnc
-//@   requires fibHtWf(f) && f.m >= 0
+//@   requires f.m >= 0
+//@   invariant fibHtWf(f)
+//@   invariant fibHtLenWf(f)
+//@   invariant fibHtKeyWf(f)
+//@   invariant fibHtHopsWf()
 //@   modifies f.realTable[*], f.virtTable[*], f.virtTableNames[*], all(fibHtNameSetT), all(virtualDetails.md), all(baseFibStrategyEntry.nexthops)
-//@   ensures [cleared] f.hasReal(enc.SpecNameHash(name)) ==> len(f.realTable[enc.SpecNameHash(name)].nexthops) == 0
+//@   ensures [cleared] !fibHtHasHops(f, enc.SpecNameHash(name))
+//@   ensures [one-entry] forall(func(h uint64) bool { return h != enc.SpecNameHash(name) ==> f.hasReal(h) == old(f.hasReal(h)) && f.realTable[h] == old(f.realTable[h]) })
 //@   ensures [others-kept] forall(func(e *baseFibStrategyEntry) bool { return e != old(f.realTable[enc.SpecNameHash(name)]) ==> sameSlice(e.nexthops, old(e.nexthops)) })
+//@   ensures [md-bound] old(fibHtMdWf(f)) ==> fibHtMdWf(f)
+
+// RemoveNextHopEnc: only the entry of name changes: its list loses at most one record, of face `nexthop`.
+//
+//@ func (*FibStrategyHashTable).RemoveNextHopEnc
+//@   requires f.m >= 0
+//@   invariant fibHtWf(f)
+//@   invariant fibHtLenWf(f)
+//@   invariant fibHtKeyWf(f)
+//@   invariant fibHtHopsWf()
+//@   modifies f.realTable[*], f.virtTable[*], f.virtTableNames[*], all(fibHtNameSetT), all(virtualDetails.md), all(baseFibStrategyEntry.nexthops), all(fibHopsSliceT)
+//@   ensures [one-entry] forall(func(h uint64) bool { return h != enc.SpecNameHash(name) ==> f.hasReal(h) == old(f.hasReal(h)) && f.realTable[h] == old(f.realTable[h]) })
+//@   ensures [others-kept] forall(func(e *baseFibStrategyEntry) bool { return e != old(f.realTable[enc.SpecNameHash(name)]) ==> sameSlice(e.nexthops, old(e.nexthops)) })
+//@   ensures [one-less] forall(func(e *baseFibStrategyEntry) bool { return len(e.nexthops) == old(len(e.nexthops)) || len(e.nexthops) == old(len(e.nexthops))-1 })
+//@   ensures [md-bound] old(fibHtMdWf(f)) ==> fibHtMdWf(f)
+//@   loop 1 invariant forallIn(0, rangeindex+1, func(i int) bool { return nextHops[i].Nexthop != nexthop })
+//@   loop 1 invariant forall(func(h uint64) bool { return f.hasReal(h) == old(f.hasReal(h)) && f.realTable[h] == old(f.realTable[h]) })
+//@   loop 1 invariant forall(func(e *baseFibStrategyEntry) bool { return sameSlice(e.nexthops, old(e.nexthops)) })
 
 // GetAllFIBEntries / GetAllForwardingStrategies: only registered entries that hold next hops / a strategy are listed.
 //
